@@ -195,6 +195,29 @@ macro_rules! strict_backend {
             }
 
             // ------------------------------------------------------------ dispatch
+            fn iter_views(op: &str, a: &Value) -> Value {
+                // the slice views exist for the Vec backend only; go through Vec values
+                use open_hypergraphs::array::vec::{VecArray, VecKind};
+                type VS = IndexedCoproduct<VecKind, SemifiniteFunction<VecKind, O>>;
+                fn vics(v: &Value) -> VS {
+                    let mut x = VS::singleton(SemifiniteFunction(VecArray(vec![])));
+                    x.sources = FiniteFunction { table: VecArray(vec_us(&v["sources"]["table"])), target: us(&v["sources"]["target"]) };
+                    x.values = SemifiniteFunction(VecArray(vec_o(&v["values"])));
+                    x
+                }
+                match op {
+                    "ic.iter_slices" => val(json!(vics(&a["ic"]).iter().map(|s| s.to_vec()).collect::<Vec<_>>())),
+                    _ => {
+                        let v = &a["ops"];
+                        let mut o = Operations::<VecKind, O, A>::singleton(A(0), SemifiniteFunction(VecArray(vec![])), SemifiniteFunction(VecArray(vec![])));
+                        o.x = SemifiniteFunction(VecArray(vec_a(&v["x"])));
+                        o.a = vics(&v["a"]);
+                        o.b = vics(&v["b"]);
+                        val(Value::Array(o.iter().map(|(x, a, b)| json!({"x": x.0, "a": a, "b": b})).collect()))
+                    }
+                }
+            }
+
             pub fn run(op: &str, a: &Value) -> Value {
                 match op {
                     // ======================================================= arrays (C07)
@@ -373,6 +396,7 @@ macro_rules! strict_backend {
                     "ops.new" => opt(OPS::new(sf_a(&a["x"]), ics_o(&a["a"]), ics_o(&a["b"])).map(|o| o_ops(&o))),
                     "ops.singleton" => val(o_ops(&OPS::singleton(A(int(&a["x"])), sf_o(&a["a"]), sf_o(&a["b"])))),
                     "ops.len" => val(nat(ops(&a["ops"]).len())),
+                    "ops.iter" | "ic.iter_slices" => iter_views(op, a),
 
                     // ======================================================= strict hypergraphs (C01-C05)
                     "hyper.new" => match HG::new(icf(&a["s"]), icf(&a["t"]), sf_o(&a["w"]), sf_a(&a["x"])) {
